@@ -167,6 +167,34 @@ def step(eng, st, site, it, ety=None, back=False):
         if rb is None:
             return None
         return [(s3, VIter(k, None, 0, (None, b if b2 is None else b2), None), y) for s3, b2, y in rb]
+    if k == "from_fn":
+        out = []
+        for s2, r in eng.call_closure(st, site, it.extra, []):
+            for s3, vi, fs in split_variants(eng, s2, r):
+                if vi == 1:
+                    out.append((s3, None, fs[0] if fs else VUnknown(None, eng.fresh("item"))))
+                else:
+                    out.append((s3, None, END))
+        return out
+    if k == "map_while":
+        if it.pos == 1:
+            return [(st, None, END)]
+        res = step(eng, st, site, it.src, None, back)
+        if res is None:
+            return None
+        out = []
+        for s2, i2, item in res:
+            inner = it.src if i2 is None else i2
+            if item is END:
+                out.append((s2, VIter(k, None, 1, inner, it.extra), END))
+                continue
+            for s3, r in eng.call_closure(s2, site, it.extra, [item]):
+                for s4, vi, fs in split_variants(eng, s3, r):
+                    if vi == 1:
+                        out.append((s4, VIter(k, None, 0, inner, it.extra), fs[0] if fs else VUnknown(None, eng.fresh("item"))))
+                    else:
+                        out.append((s4, VIter(k, None, 1, inner, it.extra), END))
+        return out
     if k == "copied":
         res = step(eng, st, site, it.src, ety, back)
         if res is None:
